@@ -15,6 +15,7 @@ from vf import instrument as I
 from vf.gen import rng_for, daily_index
 
 ID = "C08"
+TECHNIQUE = "runtime monitoring: conservation checker (exact rational interval arithmetic) over the real data classes' daily frames for billing and sub-daily meter series; contracts on as_freq / clean_billing_daily_data"
 LEVEL = "exploration"
 NEEDS_NUMBA = False
 CASE_TIMEOUT = 1800
